@@ -4,6 +4,6 @@ CONSTANTS V = 0
           MaxCap = 2
           MaxMsgs = 4
           MaxOps = 1
-          Hops = {1}
+          Hops = {"h1"}
 INVARIANTS OutOnce OutOrder BlockedKeep InOnce InOrder MalformedNeverDelivered BufBounded NoLostWakeup PollW PollR
 VIEW View
